@@ -1103,6 +1103,8 @@ class Executor(Exec):
                 return None
             if name == "copy":
                 return set(recv)
+        if isinstance(recv, ADict) and name == "keys" and not args:
+            return ASet(recv.present, recv.key_sort)  # the key set at this moment (snapshot; enough for set(d.keys()) / membership)
         if isinstance(recv, ASet):
             if name == "add":
                 recv.member = z3.Store(recv.member, lift(args[0]), z3.BoolVal(True))
